@@ -37,6 +37,8 @@ class TState:
         self.can_timeout = False
         self.exc = None
         self.priority = 0
+        self.held = False            # policy "hold": parked inside the chosen function until nothing else can run
+        self.fn_lines = 0
 
 
 class Sched:
@@ -60,6 +62,8 @@ class Sched:
         self.observer = None
         self.races = []
         self.client = None
+        self.hold = None              # (thread name prefix, function name, line count at which to park)
+        self.lazy_loop = False
 
     # ---------------------------------------------------------------- abstract events (replayed through the Lean models)
     def tid(self, st=None):
@@ -141,6 +145,18 @@ class Sched:
         return out
 
     def _pick(self, cur, cands):
+        if self.hold is not None:
+            free = [c for c in cands if not c.held]
+            if free:
+                cands = free
+            else:
+                for c in cands:
+                    c.held = False       # everybody else is blocked: the parked thread goes on
+        if self.lazy_loop:
+            # the network thread runs only when no (unparked) application thread can: it is slow to come round
+            others = [c for c in cands if c.name != "loop"]
+            if others:
+                cands = others
         if self.schedule is not None:
             while self.schedule:
                 n = self.schedule.pop(0)
@@ -247,7 +263,24 @@ class Sched:
 
     def _local(self, frame, event, arg):
         if event == "line":
+            if self.hold is not None and frame.f_code.co_name == self.hold[1]:
+                st = self.me()
+                if st is not None and st.name.startswith(self.hold[0]):
+                    st.fn_lines += 1
+                    if self.hold[2] == 0:
+                        # inside the chosen function this thread advances one line at a time, and only when every
+                        # other thread is blocked (the network thread in select())
+                        st.held = True
+                    elif st.fn_lines == self.hold[2]:
+                        # parked once, at the k-th line of this invocation, until every other thread is blocked: the
+                        # window between two particular lines is held open while the network thread runs to select()
+                        st.held = True
             self.yield_point(f"{frame.f_code.co_name}:{frame.f_lineno}")
+        elif event == "return" and self.hold is not None and frame.f_code.co_name == self.hold[1]:
+            st = self.me()
+            if st is not None:
+                st.fn_lines = 0
+                st.held = False
         return self._local
 
     # ---------------------------------------------------------------- run
